@@ -674,6 +674,99 @@ def _recollect(o, keep):
                                 parent_or_seq_chunk_parent=_own_parent(o, keep))
 
 
+
+# ---- file exports as operations of a history (C10: "export operations leave every operand unchanged" and the text they
+# write must not depend on what was asked before).  The writers get an in-memory handle; the answer is the text.
+
+
+def _gb_canon(text):
+    """GenBank text with the qualifier lines of each feature sorted: the writer emits multi-valued qualifiers in set
+    order (legitimately different between two sets with equal content but another insertion history)."""
+    out, cur = [], None
+    for line in text.split("\n"):
+        if line.startswith("     ") and not line.startswith("      "):
+            if cur is not None:
+                out.append(cur)
+            cur = [line, []]
+        elif cur is not None and line.startswith("      "):
+            cur[1].append(line)
+        else:
+            if cur is not None:
+                out.append(cur)
+                cur = None
+            out.append(line)
+    if cur is not None:
+        out.append(cur)
+    return [x if isinstance(x, str) else [x[0], sorted(x[1])] for x in out]
+
+
+def _export_gff3(o, add_sequences, chrom_rel):
+    import io
+    from inscripta.biocantor.io.gff3.writer import collection_to_gff3
+
+    h = io.StringIO()
+    collection_to_gff3([o], h, add_sequences=add_sequences, chromosome_relative_coordinates=chrom_rel)
+    return h.getvalue()
+
+
+def _export_genbank(o, euk, translations):
+    import io
+    from inscripta.biocantor.io.genbank.writer import collection_to_genbank, GenbankFlavor
+
+    h = io.StringIO()
+    collection_to_genbank([o], h, genbank_type=GenbankFlavor.EUKARYOTIC if euk else GenbankFlavor.PROKARYOTIC, update_translations=translations)
+    return _gb_canon(h.getvalue())
+
+
+def _export_tbl(o, euk, table11):
+    import io
+    from inscripta.biocantor.io.ncbi.tbl_writer import collection_to_tbl
+    from inscripta.biocantor.io.genbank.constants import GenbankFlavor
+    from inscripta.biocantor.gene.codon import TranslationTable
+
+    h = io.StringIO()
+    collection_to_tbl([o], h, translation_table=TranslationTable.PROKARYOTE if table11 else TranslationTable.DEFAULT, locus_tag_prefix="LT",
+                      genbank_flavor=GenbankFlavor.EUKARYOTIC if euk else GenbankFlavor.PROKARYOTIC, submitter_lab_name="lab", random_seed=7)
+    return h.getvalue()
+
+
+def _export_fasta(o):
+    import io
+    from inscripta.biocantor.io.fasta.fasta import collection_to_fasta
+
+    h = io.StringIO()
+    collection_to_fasta([o], h)
+    return h.getvalue()
+
+
+def _model_roundtrip(o):
+    import json
+    from inscripta.biocantor.io.models import AnnotationCollectionModel
+
+    text = json.dumps(AnnotationCollectionModel.Schema().dump(AnnotationCollectionModel.from_annotation_collection(o)))
+    return AnnotationCollectionModel.Schema().loads(text).to_annotation_collection(o._parent_or_seq_chunk_parent)
+
+
+def _genbank_roundtrip(o, euk, mode):
+    import io
+    from inscripta.biocantor.io.genbank.writer import collection_to_genbank, GenbankFlavor
+    from inscripta.biocantor.io.genbank.parser import parse_genbank, GenBankParserType
+
+    h = io.StringIO()
+    collection_to_genbank([o], h, genbank_type=GenbankFlavor.EUKARYOTIC if euk else GenbankFlavor.PROKARYOTIC)
+    recs = list(parse_genbank(io.StringIO(h.getvalue()), gbk_type=[GenBankParserType.SORTED, GenBankParserType.LOCUS_TAG, GenBankParserType.HYBRID][mode % 3]))
+    return recs[0].to_annotation_collection()
+
+
+ANNOTATION_COLLECTION_OPS += [
+    S("collection_to_gff3", _export_gff3, "bool", "bool", weight=2.0),
+    S("collection_to_genbank", _export_genbank, "bool", "bool", weight=2.0),
+    S("collection_to_tbl", _export_tbl, "bool", "bool", weight=2.0),
+    S("collection_to_fasta", _export_fasta, weight=0.8),
+    S("model_roundtrip", _model_roundtrip, result="collection", weight=1.2),
+    S("genbank_roundtrip", _genbank_roundtrip, "bool", "smallint", result="collection", weight=1.5),
+]
+
 GENE_OPS += [S("GeneInterval(transcripts=self.transcripts)", _regroup_gene, "bool", result="gene", weight=1.2)]
 TRANSCRIPT_OPS += [S("GeneInterval(transcripts=[self])", _gene_of_transcript, "bool", result="gene", weight=1.0)]
 FEATURE_COLLECTION_OPS += [S("FeatureIntervalCollection(feature_intervals=self.feature_intervals)", _regroup_fc, "bool", result="feature_collection", weight=1.2)]
